@@ -93,6 +93,26 @@ theorem C13_sites_agree (o : Opts) (c : Nat) (f : FI) (v : PVal)
   · cases v <;> simp [fieldD, anything, h, serFieldAtom, serLeaf, serApplies]
   · cases v <;> simp_all [fieldD, anything, isScalarV, serFieldAtom, serLeaf, serApplies]
 
+/-- **C13_attrs_instance_first**: a value whose class is an attrs class takes the instance branch whatever else
+    it is — also a list, a tuple, a set or a dict (`@attr.s class Bag(list)`) —, at every site: the model's
+    `_asdict_anything`, `asdict` field branch, `astuple` field branch and member test all send an `inst` to the
+    conversion of its fields, and the result never depends on what the instance holds as a container (there is
+    nothing of it in the model). -/
+theorem C13_attrs_instance_first :
+    (∀ l : Looks, l.hasAttrs = true → classify l = .instance) ∧
+    (∀ c h fs, classify (looksOf (.inst c h fs)) = .instance) ∧
+    (∀ (o : Opts) (isKey : Bool) c h fs, anything o isKey (.inst c h fs) = (fieldsD o c fs).map (Out.record o.df)) ∧
+    (∀ (o : Opts) k f c h fs, o.ser ≠ .wrap →
+      fieldD o k f (.inst c h fs) = (fieldsD o c fs).map (Out.record o.df)) ∧
+    (∀ (o : Opts) flt c h fs, tfield o flt (.inst c h fs) = (tupleOf o flt fs).map (tfOut o.tf) ∧
+      tmember o flt (.inst c h fs) = (tupleOf o flt fs).map (tfOut o.tf)) := by
+  refine ⟨?_, ?_, ?_, ?_, ?_⟩
+  · intro l h; simp [classify, h]
+  · intro c h fs; rfl
+  · intro o isKey c h fs; simp [anything]
+  · intro o k f c h fs hw; simp [fieldD, hw]
+  · intro o flt c h fs; simp [tfield, tmember]
+
 /-- **C13_instance_by_fields**: what makes a value an attrs instance for the conversion is that it has a field
     list (`has(type(v))`, resolved through the MRO) — the model takes nothing else from the class: at both sites
     (`_asdict_anything` and `asdict`'s own branch for a field value) and for `astuple` (field value and member),
